@@ -149,6 +149,68 @@ def _quantified_complete(fn, e: ast.AST, quant: str, parents_of: str, graph_recv
     return isinstance(it, ast.Call) and call_name(it) == "get_parents" and len(it.args) == 1 and norm(it.args[0]) == parents_of
 
 
+def _conjuncts(e: ast.AST) -> List[ast.AST]:
+    if isinstance(e, ast.BoolOp) and isinstance(e.op, ast.And):
+        return [c for v in e.values for c in _conjuncts(v)]
+    return [e]
+
+
+def _selection_as_loop(fn: ast.FunctionDef) -> ast.FunctionDef:
+    """`return [t for t in ITER if A if B and C]` (also list(<generator>), also `xs = [...]` ... `return xs` with xs bound once)
+    rewritten, on a private copy, as the loop `for t in ITER: if A: if B: if C: out.append(t)`; the tests are pure selections, so
+    nesting the conjuncts keeps the meaning. The function is returned unchanged when it has another shape."""
+    rets = [r for r in ast.walk(fn) if isinstance(r, ast.Return) and r.value is not None]
+    if len(rets) != 1 or rets[0] not in fn.body:
+        return fn
+
+    def comp_of(v):
+        if isinstance(v, ast.Call) and isinstance(v.func, ast.Name) and v.func.id == "list" and len(v.args) == 1 and isinstance(v.args[0], ast.GeneratorExp):
+            v = v.args[0]
+        if isinstance(v, (ast.ListComp, ast.GeneratorExp)) and len(v.generators) == 1 and isinstance(v.generators[0].target, ast.Name) \
+                and isinstance(v.elt, ast.Name) and v.elt.id == v.generators[0].target.id:
+            return v
+        return None
+
+    holder, out = rets[0], "__selected"
+    v = comp_of(rets[0].value)
+    if v is None and isinstance(rets[0].value, ast.Name):
+        out = rets[0].value.id
+        binds = [x for x in ast.walk(fn) if isinstance(x, ast.Name) and x.id == out and isinstance(x.ctx, (ast.Store, ast.Del))]
+        asg = [st for st in fn.body if isinstance(st, ast.Assign) and len(st.targets) == 1 and isinstance(st.targets[0], ast.Name) and st.targets[0].id == out]
+        if len(binds) == 1 and len(asg) == 1:
+            v = comp_of(asg[0].value)
+            holder = asg[0]
+    if v is None:
+        return fn
+    g = v.generators[0]
+    tests = [c for t in g.ifs for c in _conjuncts(t)]
+    lines = ["def %s(%s):" % (fn.name, ast.unparse(fn.args))]
+    for st in fn.body:
+        if isinstance(st, ast.Expr) and isinstance(st.value, ast.Constant):
+            continue
+        if st is holder:
+            ind = "        "
+            lines += ["    %s = []" % out, "    for %s in %s:" % (g.target.id, ast.unparse(g.iter))]
+            for t in tests:
+                lines.append(ind + "if %s:" % ast.unparse(t))
+                ind += "    "
+            lines.append(ind + "%s.append(%s)" % (out, v.elt.id))
+            if holder is rets[0]:
+                lines.append("    return %s" % out)
+        else:
+            lines += ["    " + ln for ln in ast.unparse(st).splitlines()]
+    new = ast.parse("\n".join(lines)).body[0]
+    for par in ast.walk(new):
+        for ch in ast.iter_child_nodes(par):
+            ch._parent = par  # type: ignore[attr-defined]
+    new._parent = getattr(fn, "_parent", None)  # type: ignore[attr-defined]
+    for n in ast.walk(new):
+        n._module = getattr(fn, "_module", None)  # type: ignore[attr-defined]
+        if hasattr(n, "lineno"):
+            n.lineno = fn.lineno
+    return new
+
+
 def r3_readiness_predicate(ctx: Context) -> None:
     ctx.rule("C02.R3", "is_ready_to_run = (any parent complete if terminal else all parents complete) and state in "
                        "{SCHEDULED, PREEMPTED}")
@@ -316,7 +378,7 @@ def r4_release_discipline(ctx: Context) -> None:
     ctx.check(ok, "C02.R4", "TaskGraph.notify_task_completion|refuses an incomplete task", loc(fn), "not task.is_complete() -> raise",
               "children can be released by notifying the completion of a task that is not complete")
     # get_releasable_tasks
-    gr = method(tg, "get_releasable_tasks")
+    gr = _selection_as_loop(method(tg, "get_releasable_tasks"))
     ctx.analysed_function(f"{TASKS}::TaskGraph.get_releasable_tasks")
     g2 = cfgmod.build(gr)
     apps = [c for c in calls_in(gr, "append")]
@@ -324,7 +386,8 @@ def r4_release_discipline(ctx: Context) -> None:
     for a in apps:
         an = g2.node_of(a)
         who = norm(a.args[0])
-        ok = any(t.kind == "test" and g2.edge_dominates(t, "T", an) and _quantified_complete(gr, t.ast, "all", who) for t in g2.nodes)
+        ok = any(t.kind == "test" and g2.edge_dominates(t, "T", an) and any(_quantified_complete(gr, cj, "all", who) for cj in _conjuncts(t.ast))
+                 for t in g2.nodes)
         ctx.check(ok, "C02.R4", "TaskGraph.get_releasable_tasks|all parents complete", loc(a), "guarded by all(parents complete)",
                   "a task with unfinished parents is reported releasable")
         st = [t for t in g2.nodes if t.kind == "test" and "RELEASABLE_TASK_STATES" in src(t.ast)]
